@@ -100,3 +100,25 @@ pub fn guard_children() {
         Err(e) => println!("AUDIT FAILED: {}", e),
     }
 }
+
+/// two closures at the same card position of two modules
+pub fn closure_labels() {
+    use cao_lang::compiler::{CompileOptions, Module};
+    use cao_lang::prelude::*;
+    let mk = |tag: i64| Function::default().with_cards(vec![Card::return_card(CardBody::Closure(Box::new(
+        Function::default().with_cards(vec![Card::set_global_var("g", Card::scalar_int(tag))]),
+    )))]);
+    let sub = |tag: i64| Module { imports: vec![], submodules: vec![], functions: vec![("mk".to_string(), mk(tag))] };
+    let m = Module {
+        imports: vec![],
+        submodules: vec![("a".to_string(), sub(1)), ("b".to_string(), sub(2))],
+        functions: vec![("main".to_string(), Function::default().with_cards(vec![
+            Card::set_var("f", Card::call_function("a.mk", vec![])),
+            Card::dynamic_call(Card::read_var("f"), vec![]),
+        ]))],
+    };
+    let p = compile(m, CompileOptions::new()).unwrap();
+    let mut vm = Vm::new(()).unwrap();
+    vm.run(&p).unwrap();
+    println!("closure created in module a set g = {:?} (expected Integer(1))", vm.read_var_by_name("g", &p.variables));
+}
